@@ -22,11 +22,17 @@ assert os.path.realpath(dn.__file__).startswith(os.path.realpath(REPO)), dn.__fi
 _MIX = {}
 
 
+# string ids: a precomposed accent, and labels that are NOT in Unicode normal form C (decomposed accent, OHM SIGN, ANGSTROM SIGN):
+# text is data, nothing may normalise it
+_STR_NAMES = ["a", "b", "c", "\u00e9", "e\u0301", "\u2126", "\u212b", "h", "i", "j", "k", "l", "m", "n", "o", "p", "q", "r", "s", "t", "u", "v",
+              "w", "x", "y", "z"]
+
+
 def mk_id(code, scheme):
     if scheme == "int":
         return code
     if scheme == "jstr":      # JSON-native ids including the falsy empty string
-        return "" if code == 2 else ("n%d" % code if code >= 26 else "abc\u00e9efghijklmnopqrstuvwxyz"[code])
+        return "" if code == 2 else _STR_NAMES[code] if code < 26 else "n%d" % code
     if scheme == "jmix":      # JSON-native ids of two types that print alike: 3 and "3"
         return code // 2 if code % 2 == 0 else str(code // 2)
     if scheme == "dstr":
@@ -41,7 +47,7 @@ def mk_id(code, scheme):
         names = ["z_0", "a", "a_1", "b", "b_2", "c_x", "_d", "e_", "a_1_2", "f__g"]
         return names[code] if code < len(names) else "u_%d" % code
     if scheme == "str":
-        return "n%d" % code if code >= 26 else "abc\u00e9efghijklmnopqrstuvwxyz"[code]
+        return "n%d" % code if code >= 26 else _STR_NAMES[code]
     # mixed hashables; Python-equal ids must stay distinct per code
     k = code % 4
     if k == 0:
@@ -379,6 +385,21 @@ class Impl:
         quiet(lambda: G.to_undirected() if G.is_directed() else G.to_directed())
         quiet(lambda: list(_el.generate_snapshots(G))); quiet(lambda: list(_el.generate_interactions(G)))
         quiet(lambda: __import__("dynetx.readwrite.json_graph.node_link", fromlist=["node_link_data"]).node_link_data(G))
+
+        # graphs DERIVED from G are the caller's to change: every stored pair of a slice, of a conversion and of a copy has its
+        # latest run prolonged and a further run added; G must not notice (its timelines are its own lists)
+        def grow(H):
+            it = H.out_interactions_iter() if H.is_directed() else H.interactions_iter()
+            for u, v, d in list(it):
+                end = d['t'][-1][1]
+                H.add_interaction(u, v, end + 1)
+                H.add_interaction(u, v, end + 2, e=end + 5)
+                H.add_interaction(u, v, end + 9)
+        import copy
+        for t in ts[:1]:
+            quiet(lambda: grow(G.time_slice(t, t + 3)))
+        quiet(lambda: grow(G.to_undirected() if G.is_directed() else G.to_directed()))
+        quiet(lambda: grow(copy.deepcopy(G)))
         return "ok"
 
     def op_clear(self, s):
